@@ -5,7 +5,7 @@ Nothing of the driver is altered.  What is added, from the outside:
 * ``Traced`` - subclass of the world's SimConnection whose ``close()`` first records what is still registered on
   the connection (pending handlers, orphaned ids, in_flight) and then runs the harness close; new connections get
   the in_flight invariant hook on ``conn.lock`` right after construction.
-* ``FlakyNode`` - SimNode whose ``up`` can refuse the next N connection attempts (bounded: a pool retries a failed
+* ``FlakyNode`` - SimNode whose ``up`` can refuse the next N connection attempts, or follow a scripted accept/refuse pattern (bounded: a pool retries a failed
   replacement immediately and forever, an unbounded refusal would never quiesce).
 * handshake hold - OPTIONS/STARTUP answers of connections opened by a pool's replace/grow path can be kept back, so
   that a scenario decides when a replacement finishes connecting (e.g. after ``shutdown()``).
@@ -25,6 +25,13 @@ POOL_CREATORS = ('pool-init', 'pool-replace', 'pool-grow')
 class FlakyNode(SimNode):
     @property
     def up(self):
+        pat = getattr(self, '_pattern', None)
+        if pat:
+            # scripted fate of the next connection attempts (True = refused); bounded, so a retrying pool always gets through in the end
+            if pat.pop(0):
+                self.refused = getattr(self, 'refused', 0) + 1
+                return False
+            return self.__dict__.get('_up', True)
         if getattr(self, '_refuse', 0) > 0:
             self._refuse -= 1
             self.refused = getattr(self, 'refused', 0) + 1
